@@ -69,6 +69,10 @@ func (c *Codec) decodeQuery(queryString url.Values, msg protoreflect.Message) er
 				return status.Error(codes.InvalidArgument, fmt.Sprintf("multiple values provided for non-repeated field %q", key))
 			}
 			err = scalar.SetGoValue(values[0])
+			if err != nil && (values[0] == "true" || values[0] == "false") {
+				// booleans arrive as text in a query string
+				err = scalar.SetGoValue(values[0] == "true")
+			}
 			if err != nil {
 				return status.Error(codes.InvalidArgument, fmt.Sprintf("invalid value %q for field %q", values[0], key))
 			}
